@@ -1,5 +1,5 @@
 ----------------------------- MODULE Trace_Sig -----------------------------
-EXTENDS Sig, Json, Integers
+EXTENDS Sig, Json, Integers, SignKeys
 
 Trace == ndJsonDeserialize("trace.ndjson")
 VARIABLES l, cid, viol, drift, merr, ncases
@@ -91,12 +91,31 @@ TraceKeyShape ==
          \cup Cl(e.err # "" \/ InSeq(e.sig, e.may_sign), "C10.signed_with_the_key_in_the_key_file"), {}, {})
   /\ UNCHANGED <<cid, ncases, x>>
 
+(* SignFlow.tla, spec -> code: the terminal state of every behaviour TLC exported, replayed on the real packagers.      *)
+(* (dpkg-sig with a requested key id: the open finding KF-C10-4 - clear-signing always uses the primary key.)          *)
+TraceSignFlow ==
+  /\ IsEv("signflow")
+  /\ LET e == Trace[l]
+         \* no key id requested: any key of the file that may sign will do (which one the OpenPGP library prefers is its business);
+         \* a requested key id, a callback, the RSA key: exactly the signer of the specification
+         agrees == /\ e.obs.outcome = e.tlc.outcome
+                   /\ (e.tlc.outcome = "built" =>
+                         IF e.argv.how = "keyfile" /\ e.argv.keyid = "none" THEN e.obs.signer \in MaySign(e.argv) ELSE e.obs.signer = e.tlc.signer)
+         prefers == e.tlc.outcome = "built" /\ e.obs.outcome = "built" /\ e.obs.signer # e.tlc.signer
+         kf == e.argv.fmt = "dpkg-sig" /\ e.argv.how = "keyfile" /\ (e.argv.keyid # "none" \/ e.argv.layout = "offline_primary")
+     IN Rec((IF agrees THEN {} ELSE IF kf THEN {"C10.signed_with_requested_key@DpkgSigIgnoresKeyID"} ELSE {"C10.signing_terminal_state_as_specified"})
+            \cup Cl(e.obs.outcome # "signing_failure" \/ e.is_signing_failure, "C10.signing_failure_identifiable")
+            \cup (IF e.tlc.outcome = "signing_failure" /\ e.obs.outcome = "built" /\ ~kf THEN {"C06.no_success_when_signing_cannot_be_done"} ELSE {}),
+            IF agrees /\ prefers THEN {"DOC.signing_key_preference_differs:" \o e.argv.fmt} ELSE {},
+            IF HasPrefix(e.err, "parse:") THEN {"harness_parse"} ELSE {})
+  /\ UNCHANGED <<cid, ncases, x>>
+
 TraceEof ==
   /\ IsEv("eof")
   /\ PrintT(<<"VIOLSET", ToJson(viol)>>) /\ PrintT(<<"DRIFTSET", ToJson(drift)>>) /\ PrintT(<<"MERRSET", ToJson(merr)>>)
   /\ PrintT(<<"NCASES", ncases>>) /\ TLCSet(1, l)
   /\ UNCHANGED <<cid, viol, drift, merr, ncases, x>>
-TraceNext == TraceCase \/ TraceEnd \/ TraceSigEv \/ TraceRotation \/ TraceKeyShape \/ TraceEof
+TraceNext == TraceCase \/ TraceEnd \/ TraceSigEv \/ TraceRotation \/ TraceKeyShape \/ TraceSignFlow \/ TraceEof
 TraceSpec == TraceInit /\ [][TraceNext]_<<vars, x>>
 HighWater == TLCSet(2, l)
 Accepted == TLCGet(1) = Len(Trace)
